@@ -205,7 +205,7 @@ def eval_dyad_adverb_iterate(f, a, b):
         Example: 3{1,x}:*[]  -->  [1 1 1]
 
     """
-    while not safe_eq(a, 0):
+    while a != 0:
         b = f(b)
         a = a - 1
     return b
@@ -408,10 +408,10 @@ def eval_adverb_scan_iterating(f, a, b, backend):
         Example: 3{1,x}\*[]  -->  [[] [1] [1 1] [1 1 1]]
 
     """
-    if safe_eq(a,0):
+    if a == 0:
         return b
     r = [b]
-    while not safe_eq(a, 0):
+    while a != 0:
         b = f(b)
         r.append(b)
         a = a - 1
